@@ -808,3 +808,84 @@ def run_bot_case(case: dict) -> dict:
             lines.append(f"bot rw {b(can)} {b(case['configured'])} {b(dbc is not None)} {ob(case['offer'])} {ob(case['conn'])}")
             impl.append(f"conn={'-' if conn is None else b(conn.ok)} asked={counter['asked']} queries={counter['queries']} ret={b(ret)}")
     return {"lines": lines, "impl": impl, "oracle": oracle, "entry": entry, "acted": acted, "can": can}
+
+
+# --------------------------------------------------------------------------------------------------- C2 connection state machine
+def gen_c2_case(rng: Rng) -> dict:
+    freq = rng.choice([1, 2, 3, 5])
+    return {"kind": rng.choice(["beacon", "beacon", "server"]), "state": rng.choice(["RUNNING"] * 5 + ["CLOSED", "INSTALLING"]),
+            "node_on": not rng.chance(1, 8), "health": rng.choice(["GOOD"] * 5 + ["COMPROMISED", "FIXING", "OVERWHELMED"]),
+            "active": not rng.chance(1, 6), "remote": not rng.chance(1, 5), "freq": freq,
+            "inact": rng.choice([0, 0, max(freq - 1, 0), max(freq - 1, 0), freq, freq + 1, rng.below(freq + 2)]),
+            "attempted": rng.chance(1, 4), "reply": rng.chance(1, 2), "nic_on": rng.chance(2, 3)}
+
+
+def run_c2_case(case: dict) -> dict:
+    """one `apply_timestep` of a real C2Beacon / C2Server put into the given connection state (the peer and the network are the
+    input `reply`: `_send_keep_alive` is stubbed to count and, when `reply`, to do what the answered exchange does), and the
+    verdict of `_check_connection`"""
+    base.load()
+    from ipaddress import IPv4Address
+    from types import SimpleNamespace
+    from primaite.simulator.network.hardware.node_operating_state import NodeOperatingState
+    from primaite.simulator.system.applications.application import ApplicationOperatingState
+    from primaite.simulator.system.software import SoftwareHealthState
+    node = base.make_node("computer", {"power": "ON", "up": 0, "down": 0, "kind": "computer", "hostname": "c2_host"})
+    sm = node.software_manager
+    name = "c2-beacon" if case["kind"] == "beacon" else "c2-server"
+    sm.install(base.registries()[1][name])
+    app = sm.software[name]
+    counter = {"sent": 0, "closed": 0}
+
+    def send_keep_alive(session_id=None, **k):
+        counter["sent"] += 1
+        if case["reply"]:
+            app.keep_alive_inactivity = 0
+            app.c2_connection_active = True
+        return True
+    object.__setattr__(app, "_send_keep_alive", send_keep_alive)
+    real_close = type(app).close
+
+    def close(*a, **k):
+        counter["closed"] += 1
+        return real_close(app, *a, **k)
+    object.__setattr__(app, "close", close)
+    app.config.keep_alive_frequency = case["freq"]
+    app.keep_alive_inactivity = case["inact"]
+    app.c2_connection_active = case["active"]
+    app.c2_remote_connection = IPv4Address("192.168.1.77") if case["remote"] else None
+    app.c2_session = SimpleNamespace(uuid="s", with_ip_address="192.168.1.77")
+    if case["kind"] == "beacon":
+        app.keep_alive_attempted = case["attempted"]
+    app.operating_state = ApplicationOperatingState[case["state"]]
+    if case["state"] == "INSTALLING":
+        app.install_countdown = 3
+    app.health_state_actual = SoftwareHealthState[case["health"]]
+    if case["health"] == "FIXING":
+        app._fixing_countdown = 3
+    node.operating_state = NodeOperatingState.ON if case["node_on"] else NodeOperatingState.OFF
+    for nic in node.network_interface.values():   # an unlinked NIC cannot be enabled through the API: set the flag
+        nic.enabled = bool(case.get("nic_on", False))
+    b = lambda x: 1 if x else 0   # noqa
+    running, good = case["state"] == "RUNNING", case["health"] == "GOOD"
+    can_net = bool(app._can_perform_network_action())
+    allowed = bool(app._check_connection()[0])
+    lines = [f"c2 allowed {b(can_net)} {b(case['remote'])}"]
+    impl = [str(b(allowed))]
+    app.apply_timestep(1)
+    after = (f"active={b(app.c2_connection_active)} remote={b(app.c2_remote_connection is not None)} inact={app.keep_alive_inactivity} "
+             f"freq={app.config.keep_alive_frequency}")
+    if case["kind"] == "beacon":
+        lines.append(f"c2 btick {b(running)} {b(good)} {b(case['reply'])} {b(case['active'])} {b(case['remote'])} {case['inact']} {case['freq']} "
+                     f"{b(case['attempted'])}")
+        impl.append(f"{after} attempted={b(app.keep_alive_attempted)} sent={counter['sent']} closed={b(counter['closed'])}")
+    else:
+        lines.append(f"c2 stick {b(running)} {b(good)} {b(case['active'])} {b(case['remote'])} {case['inact']} {case['freq']}")
+        impl.append(after)
+    oracle = []
+    if (counter["sent"] or counter["closed"]) and not (running and good and case["active"]):
+        oracle.append(("c2-acted-while-not-running", f"{case['kind']} in {case['state']}/{case['health']}/active={case['active']}: {counter}"))
+    if counter["closed"] and app.operating_state.name != "CLOSED":
+        oracle.append(("c2-close-did-not-close", f"operating state {app.operating_state.name} after close()"))
+    return {"lines": lines, "impl": impl, "oracle": oracle, "sent": counter["sent"], "closed": counter["closed"],
+            "acts": running and good and case["active"], "allowed": allowed}
